@@ -6,7 +6,8 @@ Model of the configuration handling in infretis/setup.py (C18):
 and of REPEX_state.initiate_ensembles (repex.py:1034-1081) → `initEnsembles`.
 
 The model mirrors the code (as repaired by /repo commit 729bb50) branch by branch, in the
-code's order, including Python truthiness (`if quantis and lambda_minus_one` skips λ₋₁ = 0.0;
+code's order, including Python truthiness (`if quantis and lambda_minus_one` skipped λ₋₁ = 0.0 until
+/repo b3eda5b made it `lambda_minus_one is not False` — `checkTruthyLm1` keeps the old test;
 `if not has_ens_engs` treats an empty list like an absent key; the cap tests use
 `intf_cap is not False`, so a cap of 0.0 IS tested) and the one place where the code still
 raises something else than TOMLConfigError on a well-formed file (KeyError on a missing
@@ -202,7 +203,7 @@ def preCheck (c : Cfg) : Except Err Unit :=
   seq (rejectIf (decide (n < 2))) <|
   seq (rejectIf (!c.intfNumeric)) <|
   seq (lm1Test c.lm1 c.interfaces) <|
-  seq (rejectIf (c.quantis = some true && lm1Truthy c.lm1)) <|
+  seq (rejectIf (c.quantis = some true && c.lm1.isVal)) <|
   seq (rejectIf (decide (c.workers > n - 1))) <|
   seq (rejectIf (decide (isort c.interfaces ≠ c.interfaces))) <|
   seq (rejectIf (decide ((distinct c.interfaces).length ≠ c.interfaces.length))) <|
@@ -214,6 +215,26 @@ def preCheck (c : Cfg) : Except Err Unit :=
 
 /-- `check_config` -/
 def check (c : Cfg) : Except Err Unit := seq (preCheck c) (gromacsTest c)
+
+/-- RECORD of the code before /repo commit b3eda5b: `if quantis and lambda_minus_one:` — the truthiness of λ₋₁,
+    so quantis together with the legal value λ₋₁ = 0.0 passed (everything else as `preCheck`) -/
+def preCheckTruthyLm1 (c : Cfg) : Except Err Unit :=
+  let n : Int := c.interfaces.length
+  seq (rejectIf (decide (n < 2))) <|
+  seq (rejectIf (!c.intfNumeric)) <|
+  seq (lm1Test c.lm1 c.interfaces) <|
+  seq (rejectIf (c.quantis = some true && lm1Truthy c.lm1)) <|
+  seq (rejectIf (decide (c.workers > n - 1))) <|
+  seq (rejectIf (decide (isort c.interfaces ≠ c.interfaces))) <|
+  seq (rejectIf (decide ((distinct c.interfaces).length ≠ c.interfaces.length))) <|
+  seq (rejectIf (decide (c.interfaces.length > c.moves.length))) <|
+  seq (sizeTest c) <|
+  seq (capTest c.cap c.interfaces) <|
+  seq (roomTest c.cap c.interfaces c.moves) <|
+  engineListTest c
+
+/-- `check_config` as it was before b3eda5b -/
+def checkTruthyLm1 (c : Cfg) : Except Err Unit := seq (preCheckTruthyLm1 c) (gromacsTest c)
 
 /-- RECORD of the code before /repo commit a54d86e: no test that the interfaces are numbers.  Faithful only
     where the old code's comparisons were defined: interfaces of ONE mutually comparable non-numeric type
